@@ -8,7 +8,7 @@
    S_resize_cols   : the same as a function of the flattened columns only (no block structure).
 
    Cells V, fill value and dtype coercions are abstract. *)
-Require Import SF.Prelude SF.Dtype SF.LabelAlign.
+Require Import SF.Prelude SF.Dtype SF.SetAlg SF.LabelAlign.
 
 Section FrameAlign.
 Variable V : Type.
@@ -44,12 +44,10 @@ Definition column_at (t : list blk) (p : nat * nat) : col :=
   let b := nth (fst p) t dflt_blk in (k_dtype b, nth (snd p) (k_cols b) []).
 
 (* dict(zip(iloc_dst, iloc_src)).get(j): a later pair overrides an earlier one *)
-Fixpoint assoc_nat (j : nat) (l : list (nat * nat)) : option nat :=
-  match l with
-  | [] => None
-  | (d, s) :: r => if Nat.eqb j d then Some s else assoc_nat j r
-  end.
-Definition dict_get (j : nat) (dst src : list nat) : option nat := assoc_nat j (rev (combine dst src)).
+Definition dict_step (j : nat) (acc : option nat) (p : nat * nat) : option nat :=
+  if Nat.eqb j (fst p) then Some (snd p) else acc.
+Definition dict_get (j : nat) (dst src : list nat) : option nat :=
+  fold_left (dict_step j) (combine dst src) None.
 
 Definition take_cols (cols : list (list V)) (pos : list nat) : list (list V) := map (fun i => nth i cols []) pos.
 
@@ -161,3 +159,75 @@ Definition resize_dom (ic cc : option icorr) : bool :=
   end.
 
 End FrameAlign.
+
+(* ---- Frame.reindex (frame.py:3001-3067): labels -> index correspondences -> resize_blocks ---- *)
+Section FrameReindex.
+Variable A V : Type.
+Variable eqb : A -> A -> bool.
+Variable leb : A -> A -> bool.
+Variable sortable : list A -> bool.
+Variable fill : V.
+Variable castf : dtype -> V -> V.
+Variable fdt : dtype -> dtype.
+Variable fill_dtype : dtype.
+
+(* Index.equals (values only) *)
+Definition idx_eq (a b : list A) : bool :=
+  (Z.of_nat (length a) =? Z.of_nat (length b)) && list_eqb eqb a b.
+
+(* the target labels of an axis that really is re-indexed (absent, or equal to the present ones: not) *)
+Definition reindexes (src : list A) (dst : option (list A)) : option (list A) :=
+  match dst with
+  | Some d => if idx_eq src d then None else Some d
+  | None => None
+  end.
+
+(* index_ic / columns_ic; the outer None is a KeyError inside from_correspondence *)
+Definition axis_ic (objpath : bool) (src : list A) (dst : option (list A)) : option (option icorr) :=
+  match reindexes src dst with
+  | None => Some None
+  | Some d => match M_from_correspondence A eqb leb sortable objpath src d with
+              | Some c => Some (Some c)
+              | None => None
+              end
+  end.
+
+Definition M_frame_reindex_g (objpath_i objpath_c : bool) (index columns : list A) (t : list (blk V))
+  (new_index new_columns : option (list A)) : res (list (blk V)) :=
+  match axis_ic objpath_i index new_index, axis_ic objpath_c columns new_columns with
+  | Some ic, Some cc => M_resize_blocks V fill castf fdt fill_dtype t (length index) ic cc
+  | _, _ => Err "KeyError"
+  end.
+
+(* ---- specification on labelled columns: a (row label, column label) lookup.
+   The column dtype is kept exactly when every (and at least one) destination row label is present. ---- *)
+Definition S_row (index : list A) (new_index : option (list A)) (c : col V) : col V :=
+  match reindexes index new_index with
+  | None => c
+  | Some d => (if covers A eqb index d && negb (is_nil A d) then fst c else fdt (fst c),
+               S_reindex A V eqb index (snd c) d fill (castf (fst c)))
+  end.
+
+Definition rows_after (index : list A) (new_index : option (list A)) : nat :=
+  match reindexes index new_index with Some d => length d | None => length index end.
+
+Definition S_frame_reindex (index columns : list A) (cols : list (col V))
+  (new_index new_columns : option (list A)) : list (col V) :=
+  match reindexes columns new_columns with
+  | None => map (S_row index new_index) cols
+  | Some dc => map (fun l => match get A (col V) eqb columns cols l with
+                             | Some c => S_row index new_index c
+                             | None => (fill_dtype, repeat fill (rows_after index new_index))
+                             end) dc
+  end.
+
+Definition touches (src dst : list A) : bool := existsb (fun x => mem A eqb x src) dst.
+
+(* label-level reading of resize_dom: when both axes are re-indexed, either both keep a label or none does *)
+Definition frame_dom (index columns : list A) (new_index new_columns : option (list A)) : bool :=
+  match reindexes index new_index, reindexes columns new_columns with
+  | Some di, Some dc => Bool.eqb (touches index di) (touches columns dc)
+  | _, _ => true
+  end.
+
+End FrameReindex.
